@@ -29,6 +29,7 @@ def setup():
             if "Error" in line and "make" in line:
                 print("   ", line)
     rc = 0 if os.path.exists(os.path.join(lib.COQ, "Makefile")) else 1
+    print(lib.run_py2v_selftest(force=True)[1])       # informative only: never fails the setup
     chk.hygiene()
     bad = [o for o in chk.obligations if not o[1]]
     for o in bad:
